@@ -238,10 +238,8 @@ fn alpha_core(cfg: &Cfg) -> Vec<Op> {
         c(DecSet(vec![7])),
         c(Cr),
         c(Lf),
-        c(Bs),
         c(Cup(Some(99), Some(99))),
         c(Decstbm(Some(1), Some(rows.saturating_sub(1).max(2)))),
-        c(sgr1(41)),
         // blanks that were TYPED (with whatever pen) are characters like any other
         t(" "),
         c(sgr1(4)),
